@@ -112,6 +112,66 @@ CLAIMS.update({
         ref='DESIGN.md section 4, C13'),
 })
 
+CLAIMS.update({
+    'C01': dict(
+        technique='who-may-spawn rule, effect order on atomic blocks, dominance by the completion test, finite-world evaluation of the admission checks',
+        text='Static: do_work is started only by the cluster/machine, allocations only by scheduler and ingest provisioning; '
+             'the workflow path moves the machine into occupied before do_work starts, ingest removes it from available first; '
+             'machines return to a free pool only under <handle>.triggered with the handle being this task\'s do_work process; '
+             'and for each hazardous proposal (occupied, on ingest, reserved for another observation, duplicated in a round) '
+             'at least one defence is effective - the scheduler guard (dominance) or the cluster check (five membership worlds).',
+        note='Defences are judged disjunctively on purpose (defence in depth): removing a redundant guard leaves the property true. Pool disjointness comes from C02.',
+        ref='DESIGN.md section 4, C01'),
+    'C03': dict(
+        technique='path dominance with idiom recognition (no-predecessor / counting / subset / all), completion-test dominance, argument-flow chain, affine match of the wait formula',
+        text='Static: every proposal of a task in the four shipped algorithms is dominated by "no predecessors" or an '
+             'all-predecessors-finished fact; tasks enter the finished table only under the completion test; cross-machine '
+             'predecessors (only) are collected, passed through cluster to do_work, waited for before ast is recorded; the wait '
+             'is the running maximum of p.aft + io[p.id]/machine.bandwidth - now with the receiving machine\'s bandwidth.',
+        note='Exact start equality under concurrency is timing and not decided.',
+        ref='DESIGN.md section 4, C03'),
+    'C04': dict(
+        technique='typestate lint over all task_status writes, move/pairing path rules, loop-shape rule for the termination predicate; adopts C19 and C11.U3',
+        text='Static necessary conditions: hand-off stored->scheduled is one pop+append and queueing+spawn happen together; task '
+             'status writes follow the life cycle with FINISHED only under the completion test; a submitted task leaves '
+             'UNSCHEDULED at once, stale proposals are refused, duplicates in a round are skipped; finished tasks (only) leave '
+             'the plan; workflows close only when nothing is left; start() returns only when is_finished(); the scheduler releases reservations itself.',
+        note='Liveness (every task is eventually offered) and final values are not decided.',
+        ref='DESIGN.md section 4, C04'),
+    'C07': dict(
+        technique='per-iteration effect pairing with affine operands, countdown-idiom summary, dominance of the rate refusal, who-writes lint; adopts C18 tables',
+        text='Static conservation clauses: every ingest step takes the data rate from the hot tier and adds the same rate to the '
+             'observation; the countdown idiom runs the deposit duration times (sibling agrees); remove frees exactly '
+             'total_data_size once for a resident observation; rate above the limit raises before the decrement; only the tiers '
+             'write current_capacity; admission requires room for the whole volume in both tiers.',
+        note='The bounds 0 <= free <= capacity and "full at the end" are values and are not decided; admission does not reserve data still to come (DESIGN.md section 6).',
+        ref='DESIGN.md section 4, C07'),
+    'C08': dict(
+        technique='dominance of the start by the admission calls, boolean skeletons of five admission predicates with affine atoms, typestate/who-writes rules',
+        text='Static: begin_observation and the ingest spawn are dominated by is_ready(now, total_arrays - telescope_use computed '
+             'per observation) and the scheduler check; each predicate\'s true verdict implies its required atoms (start time, arrays, '
+             'WAITING; buffer and cluster checks, pending+demand<=max with reservation; available>=demand, ingest+demand<=max; room '
+             'for rate*duration in both tiers); ingest takes exactly demand machines; status and telescope_use follow their life cycle.',
+        note='"Starts exactly on time when idle" and same-step admissions reading stale pools are not decided.',
+        ref='DESIGN.md section 4, C08'),
+    'C09': dict(
+        technique='provenance of proposed machines, dominance of the provisioning call, size expression match, predicate skeleton; adopts C01/C02/C05 rules',
+        text='Static: BatchProcessing proposes only machines from get_idle_resources(plan.id) when provisioned; provisioning is '
+             'dominated by not-provisioned, partitions free and size >= minimum; the size is floor(machines/partitions) capped by '
+             'availability or the per-observation split (never below its minimum); finished tasks return machines to the owner; '
+             'exclusivity and release are adopted from C01.N3/N5, C02.P2/P4 and C05.L3.',
+        note='Counts at run time follow from these guards plus the counter rule; not enumerated.',
+        ref='DESIGN.md section 4, C09'),
+    'C18': dict(
+        technique='decision tables (rate sign x residual<rate) of the tier arithmetic in affine form, sibling agreement receiver/sender, refusal-restores path rule',
+        text='Static: per move loop the receiving and sending tier are driven by the same rate; per case the receiver\'s capacity '
+             'delta is minus the sender\'s and equals minus the data moved, residuals agree and the loop raises otherwise; the '
+             'source pops into its transfer slot and the receiver stores exactly when the residual reaches 0; the refusing path '
+             'restores everything. The hot->cold direction moving at the cold rate (not the slower of the two) is a recorded known finding.',
+        note='Rates are assumed non-zero. The step count ceil(size/rate) follows from the tables and is not computed.',
+        ref='DESIGN.md section 4, C18'),
+})
+
 NOT_YET = 'check under construction in this session (see DESIGN.md section 4); not claimed until its command exists'
 
 
